@@ -87,6 +87,9 @@ def strategy_(g):
             if e["t"] not in ("odo", "lm"):
                 e["fl"] = "num"
                 case["meta"]["numeric_custom_edges"] = True
+    # queries made on the graph before the run (export to a file, chi2, comparison with itself) must not change which vertex is
+    # "the first listed" nor which ones are fixed
+    case["queries_first"] = g.choice([False, False, True])
     case["mode"] = mode
     case["iters"] = g.choice([1, 1, 2, 3, 5, 10, 20])
     case["tol"] = g.choice([0.0, 0.0, 1e-6])
@@ -192,6 +195,25 @@ def check(case, ctx):
     for i, f in case.get("alias", []):
         g._vertices[i].pose = g._vertices[f].pose
         ctx.event("fixed-and-free-vertex-share-one-pose-object")
+    if case.get("queries_first"):
+        ctx.event("queries-before-the-run:export,chi2,equals")
+        listed = list(g._vertices)
+        import os
+        import tempfile
+
+        fd, path = tempfile.mkstemp(prefix="vf_c06_", suffix=".g2o")
+        os.close(fd)
+        try:
+            try:
+                g.to_g2o(path)
+            except (NotImplementedError, ValueError):
+                ctx.event("queries-before-the-run:export-refused")
+            g.calc_chi2()
+            g.equals(g)
+        finally:
+            os.unlink(path)
+        if len(g._vertices) != len(listed) or any(a is not b for a, b in zip(g._vertices, listed)):
+            return ctx.fail("vertex-list-reordered-by-a-query", "the graph's vertex list changed order during to_g2o / calc_chi2 / equals (fix_first_pose refers to the first listed vertex)")
     flags_before = [bool(v.fixed) for v in g._vertices]
     before = RG.poses_snapshot(g)
     ret, _ = GC.optimize_quiet(g, tol=case["tol"], max_iter=iters, fix_first_pose=ff, verbose=False)
